@@ -107,10 +107,23 @@ def cache_coherence(chk, repo: Repo, rule: str, prefixes: Tuple[str, ...], floor
                 keyed = [t for t in tests if isinstance(t.ast, ast.Compare) and not all(
                     isinstance(c, ast.Constant) and c.value is None for c in t.ast.comparators)]
                 reads = _self_reads(a.value)
-                for nm in {x.id for x in ast.walk(a.value) if isinstance(x, ast.Name)}:
+                # locals the cached value is built from, transitively (assignments, loop variables <- their iterables)
+                todo = [x.id for x in ast.walk(a.value) if isinstance(x, ast.Name)]
+                seen_nm: Set[str] = set()
+                while todo:
+                    nm = todo.pop()
+                    if nm in seen_nm:
+                        continue
+                    seen_nm.add(nm)
                     for s in walk_no_nested(fn):
-                        if isinstance(s, ast.Assign) and path_of(s.targets[0]) == nm:
-                            reads |= _self_reads(s.value)
+                        src = None
+                        if isinstance(s, ast.Assign) and any(isinstance(t, ast.Name) and t.id == nm for T in s.targets for t in ast.walk(T)):
+                            src = s.value
+                        elif isinstance(s, (ast.For, ast.comprehension)) and any(isinstance(t, ast.Name) and t.id == nm for t in ast.walk(s.target)):
+                            src = s.iter
+                        if src is not None:
+                            reads |= _self_reads(src)
+                            todo.extend(x.id for x in ast.walk(src) if isinstance(x, ast.Name))
                 reads.discard(cache)
                 inst = f"{ci.qual}.{'@' if kind == 'getter' else ''}{name}/{cache}"
                 where = f"{m.rel}:{a.lineno}"
